@@ -38,7 +38,7 @@ class C09(Prop):
     pkg = "hdog"
     binname = "c09"
     quick_cases = 2400
-    thorough_cases = 12000
+    thorough_cases = 8000
     shard = 150
     design_ref = "DESIGN.md 4 C09"
     technique = ("Coq proof about a statement-by-statement model of PayloadWriter (byte-list state machine, panics explicit) against an "
@@ -47,7 +47,7 @@ class C09(Prop):
     rule = ("random op sequences (1..11 ops) on ONE writer: write_counter / write_gauge / write_histogram / write_distribution and "
             "payloads() drains (full, partial k=0..4, repeated = flush cycles); max_payload_len in {0..80 (most), 81..400, 1432, 8192, "
             "rarely 2^32-1 / 2^32 / 2^32+5}; length prefix on/off; prefix none / 0..2 / 1..4 / 5..24 bytes; 0..5 global labels; names of "
-            "length 0..max+8; 0..4 own labels incl. bare tags and empty keys; histogram value lists 0..300 (thorough: ..3000) from a pool of "
+            "length 0..max+8; 0..4 own labels incl. bare tags and empty keys; histogram value lists 0..300 (thorough: ..1500) from a pool of "
             "floats whose ryu renderings are 3..24 bytes (extremes, subnormals, NaN, +-inf, random bit patterns); sample rate none / "
             "0.5 / 1.0 / 1e-9 / ...; 1 case in 5 draws strings from an adversarial alphabet with the delimiters : | , # @ \\n T = and "
             "multi-byte UTF-8. A case is non-trivial if a drain yielded at least one payload or a write dropped a point; distinct = "
@@ -144,7 +144,7 @@ class C09(Prop):
             else:
                 rate = rng.weighted([(3, None), (1, f2b(rng.pick(RATES)))])
                 if big:
-                    nv = rng.weighted([(12, rng.range(0, 12)), (4, rng.range(10, 300)), (1, rng.range(300, 3000))])
+                    nv = rng.weighted([(12, rng.range(0, 12)), (4, rng.range(10, 300)), (1, rng.range(300, 1500))])
                 else:
                     nv = rng.weighted([(6, rng.range(0, 12)), (2, rng.range(10, 60)), (1, rng.range(60, 300))])
                 if rng.chance(1, 3):
